@@ -8,6 +8,11 @@ const COMPONENTS: &[&[u8]] = &[
     b"a", b"b", b"ab", b"main", b"dev", b"x-y", b"a.b", b"v1", b"1", b"\xc3\xa9", b"\xff", b"\xc2\xa0", b"a\xc2\xa0",
     b"z\xe3\x80\x80", b"w\xe2\x80\xa8", b"\xc2\x85x", b"q\xc2\x85", b"HEAD", b"capabilities", b"shallow", b"unborn",
     b"a\xe2\x80\x8a", b"e\xe1\x9a\x80", b"m\xe2\x81\x9f", b"\xa0", b"t\x80",
+    // `=` is legal in ref names; under v0/v1 the HEAD target travels inside a `symref=HEAD:<target>` capability
+    b"release=1.0", b"x=", b"a==b", b"=", b"=y", b"k=v=w",
+];
+const EQ_NAMES: &[&[u8]] = &[
+    b"refs/heads/release=1.0", b"refs/heads/x=", b"refs/heads/a==b", b"refs/heads/=", b"refs/tags/v=1", b"refs/heads/k=v=w/=",
 ];
 const DIRS: &[&[u8]] = &[b"refs/heads/", b"refs/tags/", b"refs/remotes/o/", b"refs/notes/", b"refs/"];
 
@@ -77,6 +82,24 @@ fn random_build(rng: &mut Rng) -> Build {
             refs.push((n, v, rng.chance(1, 3)));
         }
     }
+    if rng.chance(1, 4) {
+        // a branch or tag with `=` in its name, preferably the one HEAD points to
+        let n = (*rng.pick(EQ_NAMES)).to_vec();
+        if !conflicts(&names, &n) {
+            names.push(n.clone());
+            refs.push((n.clone(), Val::Obj(rng.below(objs.len() as u64) as usize), rng.chance(1, 3)));
+            if rng.chance(1, 3) {
+                let s = b"refs/remotes/o/HEAD".to_vec();
+                if !conflicts(&names, &s) {
+                    names.push(s.clone());
+                    refs.push((s, Val::Sym(n.clone()), false));
+                }
+            }
+            if rng.chance(3, 4) {
+                return Build { objs, refs, head: Val::Sym(n) };
+            }
+        }
+    }
     let head = match rng.below(20) {
         0..=10 if !names.is_empty() => Val::Sym(rng.pick(&names).clone()),
         11..=13 => Val::Sym(b"refs/heads/unborn-branch".to_vec()),
@@ -95,6 +118,15 @@ fn random_adv(rng: &mut Rng) -> Adv {
             names.push(n);
         }
     }
+    let eq_head = if rng.chance(1, 4) {
+        let n = (*rng.pick(EQ_NAMES)).to_vec();
+        if !names.contains(&n) {
+            names.push(n.clone());
+        }
+        Some(n)
+    } else {
+        None
+    };
     names.sort();
     let oids: Vec<Vec<u8>> = (0..3).map(|_| rng.bytes(20)).collect();
     let mut refs = Vec::new();
@@ -107,6 +139,12 @@ fn random_adv(rng: &mut Rng) -> Adv {
         });
     }
     let head = match rng.below(10) {
+        _ if eq_head.is_some() && rng.chance(3, 4) => Some(Rec {
+            name: b"HEAD".to_vec(),
+            oid: Some(rng.pick(&oids).clone()),
+            peeled: rng.chance(1, 5).then(|| rng.pick(&oids).clone()),
+            target: eq_head.clone(),
+        }),
         0 => None,
         1 | 2 => Some(Rec { name: b"HEAD".to_vec(), oid: None, peeled: None, target: Some(name(rng)) }),
         3 | 4 => Some(Rec { name: b"HEAD".to_vec(), oid: Some(rng.pick(&oids).clone()), peeled: rng.chance(1, 3).then(|| rng.pick(&oids).clone()), target: None }),
@@ -362,7 +400,31 @@ fn boundary() -> Vec<Case> {
         Build { objs: vec![Obj::Commit(0), Obj::Tag { target: 0, name: b"v1".to_vec() }], refs: vec![r(b"refs/tags/v1", Val::Obj(1))], head: Val::Obj(1) },
         Build { objs: c0(), refs: vec![r(b"refs/heads/a\xc2\xa0", Val::Obj(0)), r(b"refs/heads/b\xe3\x80\x80", Val::Obj(0))], head: Val::Sym(b"refs/heads/a\xc2\xa0".to_vec()) },
         Build { objs: c0(), refs: vec![r(b"refs/heads/main", Val::Obj(0)), r(b"refs/heads/s", Val::Sym(b"refs/heads/main".to_vec()))], head: Val::Sym(b"refs/heads/s".to_vec()) },
+        // `=` in the name HEAD points to (v0/v1: inside the symref capability), at the end, twice
+        Build { objs: c0(), refs: vec![r(b"refs/heads/release=1.0", Val::Obj(0)), r(b"refs/heads/release", Val::Obj(0))], head: Val::Sym(b"refs/heads/release=1.0".to_vec()) },
+        Build { objs: c0(), refs: vec![r(b"refs/heads/x=", Val::Obj(0)), r(b"refs/remotes/o/HEAD", Val::Sym(b"refs/heads/x=".to_vec()))], head: Val::Sym(b"refs/heads/x=".to_vec()) },
+        Build {
+            objs: vec![Obj::Commit(0), Obj::Tag { target: 0, name: b"v".to_vec() }],
+            refs: vec![r(b"refs/tags/a==b", Val::Obj(1)), (b"refs/heads/=".to_vec(), Val::Obj(0), true)],
+            head: Val::Sym(b"refs/tags/a==b".to_vec()),
+        },
+        Build { objs: c0(), refs: vec![], head: Val::Sym(b"refs/heads/unborn=1".to_vec()) },
     ];
+    // pristine advertisements whose HEAD target / symref targets contain `=`
+    for target in [&b"refs/heads/release=1.0"[..], b"refs/heads/x=", b"refs/heads/a==b", b"refs/heads/="] {
+        let adv = Adv {
+            head: Some(Rec { name: b"HEAD".to_vec(), oid: Some(o1.clone()), peeled: None, target: Some(target.to_vec()) }),
+            refs: vec![
+                Rec { name: b"refs/heads/release".to_vec(), oid: Some(o2.clone()), peeled: None, target: None },
+                Rec { name: target.to_vec(), oid: Some(o1.clone()), peeled: None, target: None },
+                Rec { name: b"refs/remotes/o/HEAD".to_vec(), oid: Some(o1.clone()), peeled: None, target: Some(target.to_vec()) },
+            ],
+        };
+        out.push(hs_case(&[], adv.meta(false), &adv.stream_v0()));
+        out.push(hs_case(&[], adv.meta(true), &adv.stream_v2(&[])));
+        let unborn = Adv { head: Some(Rec { name: b"HEAD".to_vec(), oid: None, peeled: None, target: Some(target.to_vec()) }), refs: vec![] };
+        out.push(hs_case(&[], unborn.meta(true), &unborn.stream_v2(&[])));
+    }
     for b in &builds {
         for ver in [0u8, 1, 2] {
             out.push(repo_case(ver, &[], b));
